@@ -4,13 +4,14 @@
   The obligation modules prove Generated = Expected and tie the tables to the model's own; update
   this file only together with the model, when upstream legitimately changes a table.
 
-  How to read the state facts:
-  * `evalWrites` is the complete set of memory an evaluation writes that it did not allocate in the
-    writing function itself. Everything in it is per-call: `evaluationScope` lives on Evaluate's
-    stack (model: `St.status`, `St.cache`), `evaluationStack` is passed by value and only appended
-    to (model: the immutable chains), `LocalBuffer` and `simpleASCIIScanner` are locals of
-    computeBucketValue / parseRFC3339TimeUTC passed to their own methods. No flag, segment, clause,
-    context, evaluator field or package variable appears.
+  How to read the state facts (roles: ‹evaluator› = the struct behind NewEvaluatorWithOptions,
+  ‹scope› = the per-call struct holding a pointer to it, ‹stack› = the struct of []string chains):
+  * `evalSharedWrites` — writes, reachable from Evaluate, into the evaluator, the data model, a
+    package variable, or through an unclassifiable parameter: none.
+  * `evalPrivateWrites` — the complete remaining write set of an evaluation, all per-call: the
+    ‹scope› lives on Evaluate's stack (model: `St.status`, `St.cache`), the ‹stack› is passed by
+    value and only appended to (model: the immutable chains), `LocalBuffer` and the time scanner
+    (a ‹local object›) are locals of the bucketing / RFC 3339 code passed to their own methods.
   * `evalDynamicCalls` are the only ways an evaluation talks to the outside (model: `flagLookups`,
     `segLookups`, `bsQueries`, `memChecks`, `events`, `logs`).
 -/
@@ -26,16 +27,12 @@ def hashHexDigits : Nat := 15
 def operatorConstants : List (String × String) := [("OperatorAfter", "after"), ("OperatorBefore", "before"), ("OperatorContains", "contains"), ("OperatorEndsWith", "endsWith"), ("OperatorGreaterThan", "greaterThan"), ("OperatorGreaterThanOrEqual", "greaterThanOrEqual"), ("OperatorIn", "in"), ("OperatorLessThan", "lessThan"), ("OperatorLessThanOrEqual", "lessThanOrEqual"), ("OperatorMatches", "matches"), ("OperatorSegmentMatch", "segmentMatch"), ("OperatorSemVerEqual", "semVerEqual"), ("OperatorSemVerGreaterThan", "semVerGreaterThan"), ("OperatorSemVerLessThan", "semVerLessThan"), ("OperatorStartsWith", "startsWith")]
 def operatorsDispatched : List String := ["after", "before", "contains", "endsWith", "greaterThan", "greaterThanOrEqual", "in", "lessThan", "lessThanOrEqual", "matches", "segmentMatch", "semVerEqual", "semVerGreaterThan", "semVerLessThan", "startsWith"]
 
-def errorTypes : List String := ["badAttrRefError", "badVariationError", "circularPrereqReferenceError", "circularSegmentReferenceError", "emptyAttrRefError", "emptyRolloutError", "malformedSegmentError"]
-def errorKinds : List (String × String) := [("badAttrRefError", "EvalErrorMalformedFlag"), ("badVariationError", "EvalErrorMalformedFlag"), ("circularPrereqReferenceError", "EvalErrorMalformedFlag"), ("emptyAttrRefError", "EvalErrorMalformedFlag"), ("emptyRolloutError", "EvalErrorMalformedFlag"), ("malformedSegmentError", "EvalErrorMalformedFlag")]
-def errorKindFallback : String := "EvalErrorException"
+def errorMessages : List (String × String) := [("invalid attribute reference %q", "MALFORMED_FLAG"), ("prerequisite relationship to %q caused a circular reference; this is probably a temporary condition due to an incomplete update", "MALFORMED_FLAG"), ("rollout or experiment with no variations", "MALFORMED_FLAG"), ("rule clause did not specify an attribute", "MALFORMED_FLAG"), ("rule, fallthrough, or target referenced a nonexistent variation index %d", "MALFORMED_FLAG"), ("segment %q had an invalid configuration: %s", "MALFORMED_FLAG"), ("segment rule referencing segment %q caused a circular reference; this is probably a temporary condition due to an incomplete update", "<no errorKind method>")]
+def errorKindFallback : String := "EXCEPTION"
 def evaluateFirstCheck : String := "(ldcontext.Context).Err != nil => USER_NOT_SPECIFIED"
 
 def statusPriority : List (String × String) := [("BigSegmentsNotConfigured", "3"), ("BigSegmentsStale", "1"), ("BigSegmentsStoreError", "2"), ("default", "0")]
 def bigSegmentRefFormat : String := "%s.g%d <- (*ldmodel.Segment).Key, (*ldmodel.Segment).Generation.IntValue()"
-
-def stackParamTypes : List String := ["evaluation.evaluationStack"]
-def stackFields : List String := ["prerequisiteFlagChain : []string", "segmentChain : []string"]
 
 def flagDecoder : List String := [
   "flag : Object",
@@ -321,18 +318,19 @@ def segmentEncoderAlways : List (String × List String) := [
 ]
 def entryPoints : List (String × String) := [("(*FeatureFlag).UnmarshalJSON", "PreprocessFlag readFeatureFlag"), ("(*Segment).UnmarshalJSON", "PreprocessSegment readSegment"), ("(FeatureFlag).MarshalJSON", "marshalFeatureFlagToWriter"), ("(Segment).MarshalJSON", "marshalSegmentToWriter"), ("(jsonDataModelSerialization).MarshalFeatureFlag", "marshalFeatureFlagToWriter"), ("(jsonDataModelSerialization).MarshalSegment", "marshalSegmentToWriter"), ("(jsonDataModelSerialization).UnmarshalFeatureFlag", "PreprocessFlag readFeatureFlag"), ("(jsonDataModelSerialization).UnmarshalSegment", "PreprocessSegment readSegment"), ("MarshalFeatureFlagToJSONWriter", "marshalFeatureFlagToWriter"), ("MarshalSegmentToJSONWriter", "marshalSegmentToWriter"), ("UnmarshalFeatureFlagFromJSONReader", "PreprocessFlag readFeatureFlag"), ("UnmarshalSegmentFromJSONReader", "PreprocessSegment readSegment"), ("easyjson:(*FeatureFlag).UnmarshalEasyJSON", "PreprocessFlag readFeatureFlag"), ("easyjson:(*Segment).UnmarshalEasyJSON", "PreprocessSegment readSegment"), ("easyjson:(FeatureFlag).MarshalEasyJSON", "marshalFeatureFlagToWriter"), ("easyjson:(Segment).MarshalEasyJSON", "marshalSegmentToWriter")]
 
-def packageVars : List String := ["ldmodel.EvaluatorAccessors : ldmodel.EvaluatorAccessorMethods", "ldmodel.TypeConversions : ldmodel.TypeConversionMethods"]
-def stateFields : List String := ["evaluationScope.bigSegmentsMemberships : map[string]evaluation.BigSegmentMembership", "evaluationScope.bigSegmentsStatus : ldreason.BigSegmentsStatus", "evaluationScope.context : ldcontext.Context", "evaluationScope.flag : *ldmodel.FeatureFlag", "evaluationScope.owner : *evaluation.evaluator", "evaluationScope.prerequisiteFlagEventRecorder : evaluation.PrerequisiteFlagEventRecorder", "evaluator.bigSegmentProvider : evaluation.BigSegmentProvider", "evaluator.dataProvider : evaluation.DataProvider", "evaluator.enableSecondaryKey : bool", "evaluator.errorLogger : ldlog.BaseLogger"]
-def evalWrites : List String := [
-  "append *evaluationStack.prerequisiteFlagChain",
-  "append *evaluationStack.segmentChain",
-  "copy *LocalBuffer.Data",
-  "map update *evaluationScope.bigSegmentsMemberships",
-  "store *LocalBuffer.Data[]",
-  "store LocalBuffer.Data",
-  "store evaluationScope.bigSegmentsMemberships",
-  "store evaluationScope.bigSegmentsStatus",
-  "store simpleASCIIScanner.pos"
+def evaluatorFieldTypes : List String := ["bool", "evaluation.BigSegmentProvider", "evaluation.DataProvider", "ldlog.BaseLogger"]
+def scopeFieldTypes : List String := ["*ldmodel.FeatureFlag", "*‹evaluator›", "evaluation.PrerequisiteFlagEventRecorder", "ldcontext.Context", "ldreason.BigSegmentsStatus", "map[string]evaluation.BigSegmentMembership"]
+def stackFieldTypes : List String := ["[]string", "[]string"]
+def stackPassing : List String := ["parameter or result of type ‹stack›"]
+def evalSharedWrites : List String := []
+def evalPrivateWrites : List String := [
+  "append ‹stack› field of type []string",
+  "copy internal.LocalBuffer field of type []byte",
+  "map update ‹scope› field of type map[string]evaluation.BigSegmentMembership",
+  "store internal.LocalBuffer field of type []byte",
+  "store ‹local object› field of type int",
+  "store ‹scope› field of type ldreason.BigSegmentsStatus",
+  "store ‹scope› field of type map[string]evaluation.BigSegmentMembership"
 ]
 def evalDynamicCalls : List String := [
   "call evaluation.PrerequisiteFlagEventRecorder",
@@ -340,13 +338,14 @@ def evalDynamicCalls : List String := [
   "invoke evaluation.BigSegmentProvider.GetMembership",
   "invoke evaluation.DataProvider.GetFeatureFlag",
   "invoke evaluation.DataProvider.GetSegment",
-  "invoke evaluation.evalError.errorKind",
-  "invoke ldlog.BaseLogger.Printf"
+  "invoke ldlog.BaseLogger.Printf",
+  "invoke ‹unexported interface›.‹unexported method› func() ldreason.EvalErrorKind"
 ]
 def evaluatorWrites : List String := [
-  "evaluation.(evaluatorOptionBigSegmentProvider).apply: store evaluator.bigSegmentProvider",
-  "evaluation.(evaluatorOptionEnableSecondaryKey).apply: store evaluator.enableSecondaryKey",
-  "evaluation.(evaluatorOptionErrorLogger).apply: store evaluator.errorLogger"
+  "method apply of an EvaluatorOption implementation: store field of type bool",
+  "method apply of an EvaluatorOption implementation: store field of type evaluation.BigSegmentProvider",
+  "method apply of an EvaluatorOption implementation: store field of type ldlog.BaseLogger"
 ]
+def globalWrites : List String := []
 
 end LD.Expected
